@@ -12,6 +12,7 @@ use crate::tree::method::code::{Code, Instruction, Label, Loadable};
 use crate::tree::method::Method;
 use crate::tree::module::Module;
 use crate::tree::record::RecordComponent;
+use crate::visitor::method::code::{StackMapData, VerificationTypeInfo};
 use crate::tree::type_annotation::{TargetInfoClass, TargetInfoCode, TargetInfoField, TargetInfoMethod, TypeAnnotation, TypePath, TypePathKind};
 
 mod pool;
@@ -426,6 +427,26 @@ fn align_to_4_byte_boundary(writer: &mut Vec<u8>) -> Result<()> {
 		2 => { writer.write_u8_slice(&[0, 0]) },
 		3 => { writer.write_u8_slice(&[0]) },
 		_ => unreachable!(),
+	}
+}
+
+fn write_verification_type_info<'a, 'b: 'a>(w: &mut Vec<u8>, pool: &mut PoolWrite<'a>, labels: &Labels, info: &'b VerificationTypeInfo) -> Result<()> {
+	match info {
+		VerificationTypeInfo::Top => w.write_u8(0),
+		VerificationTypeInfo::Integer => w.write_u8(1),
+		VerificationTypeInfo::Float => w.write_u8(2),
+		VerificationTypeInfo::Double => w.write_u8(3),
+		VerificationTypeInfo::Long => w.write_u8(4),
+		VerificationTypeInfo::Null => w.write_u8(5),
+		VerificationTypeInfo::UninitializedThis => w.write_u8(6),
+		VerificationTypeInfo::Object(class) => {
+			w.write_u8(7)?;
+			w.write_u16(pool.put_class(class)?)
+		},
+		VerificationTypeInfo::Uninitialized(label) => {
+			w.write_u8(8)?;
+			w.write_u16(labels.try_get(label)?)
+		},
 	}
 }
 
@@ -1082,6 +1103,7 @@ fn write_code<'a, 'b: 'a>(writer: &mut impl ClassWrite, code: &'b Code, pool: &m
 				wide.insert(unwritten.instruction_index);
 
 				labels.next_attempt();
+				frames.clear();
 				w = Vec::with_capacity(w.len());
 				continue 'a;
 			}
@@ -1112,7 +1134,69 @@ fn write_code<'a, 'b: 'a>(writer: &mut impl ClassWrite, code: &'b Code, pool: &m
 	let mut buffer = Vec::new();
 
 	if !frames.is_empty() {
-		// TODO: write stack map table
+		attribute_count += 1;
+		write_attribute(&mut buffer, pool, attribute::STACK_MAP_TABLE, |w, pool| {
+			w.write_usize_as_u16(frames.len()).context("too many stack map frames")?;
+			let mut previous: Option<u16> = None;
+			for &(offset, frame) in &frames {
+				// the first frame states its offset, the others the distance to the previous frame minus one
+				let offset_delta = match previous {
+					None => offset,
+					Some(previous) => offset - previous - 1, // instructions are at increasing offsets
+				};
+				previous = Some(offset);
+
+				match frame {
+					StackMapData::Same => {
+						if let Ok(small @ 0..=63) = u8::try_from(offset_delta) {
+							w.write_u8(small)?;
+						} else {
+							w.write_u8(251)?;
+							w.write_u16(offset_delta)?;
+						}
+					},
+					StackMapData::SameLocals1StackItem { stack } => {
+						if let Ok(small @ 0..=63) = u8::try_from(offset_delta) {
+							w.write_u8(64 + small)?;
+						} else {
+							w.write_u8(247)?;
+							w.write_u16(offset_delta)?;
+						}
+						write_verification_type_info(w, pool, &labels, stack)?;
+					},
+					&StackMapData::Chop { k } => {
+						if !(1..=3).contains(&k) {
+							bail!("a chop frame removes one to three locals, got {k}");
+						}
+						w.write_u8(251 - k)?;
+						w.write_u16(offset_delta)?;
+					},
+					StackMapData::Append { locals } => {
+						if !(1..=3).contains(&locals.len()) {
+							bail!("an append frame adds one to three locals, got {}", locals.len());
+						}
+						w.write_u8(251 + locals.len() as u8)?;
+						w.write_u16(offset_delta)?;
+						for local in locals {
+							write_verification_type_info(w, pool, &labels, local)?;
+						}
+					},
+					StackMapData::Full { locals, stack } => {
+						w.write_u8(255)?;
+						w.write_u16(offset_delta)?;
+						w.write_slice(locals,
+							|w, len| w.write_usize_as_u16(len).context("too many locals in a stack map frame"),
+							|w, local| write_verification_type_info(w, pool, &labels, local)
+						)?;
+						w.write_slice(stack,
+							|w, len| w.write_usize_as_u16(len).context("too many stack items in a stack map frame"),
+							|w, item| write_verification_type_info(w, pool, &labels, item)
+						)?;
+					},
+				}
+			}
+			Ok(())
+		})?;
 	}
 
 	if let Some(line_number_table) = &code.line_numbers {
